@@ -216,6 +216,15 @@ def replay(path):
         return 1 if rc == 1 else (0 if rc == 0 else 2)
     if kind == 'kani-harness':
         return P.replay_kani(j)
+    if kind == 'gk-compile':
+        import kani_units
+        os.environ['VERIF_NOCACHE'] = '1'
+        spec = dict(P.GK, harnesses=['m_empty_then_uninit::h::c03'], min_harnesses=1)
+        r = kani_units.run_kani(spec, 'quick')
+        print('corpus modules regenerated from /repo and compiled: %s %s' % (r.status, r.reason))
+        for f in r.failures:
+            print('REPLAY: violated %s' % f['message'])
+        return 1 if r.status == VIOLATION else (0 if r.status == PASS else 2)
     if kind == 'bx-vec':
         r = units.run_bx_vec('replay', 0, case=j['case'])
         print(r.reason)
